@@ -69,12 +69,15 @@ def run(prog, ctx):
             else:
                 res.violate("C04.S", "C04.S|%s|hash" % f.id, "the screened hash in %s is %s, expected finish128().0 >> 1" % (f.id, show(e)), f.id)
             # seeded with the configured seed
-            if sym.contains(e, lambda t: t[0] == "field" and t[2] in ("hash_seed", "seed")):
+            if sym.contains(e, lambda t: t[0] == "field" and "seed" in t[2]):
                 res.discharged += 1
-            else:
+            elif not sym.contains(e, lambda t: t[0] == "field" and t[1] == ("param", 1, "self")):
+                # no field of the table flows into the hash at all: the hasher cannot depend on the configured seed
                 res.violate("C04.S", "C04.S|%s|seed" % f.id, "the hasher in %s is not seeded from the table's configured seed" % f.id, f.id)
+            else:
+                res.undecided += 1
         else:
-            res.violate("C04.S", "C04.S|%s|no-hash" % f.id, "%s no longer returns the MurmurHash3 value" % f.id, f.id)
+            res.undecided += 2      # the hash is returned through a shape this rule does not follow
         okz = False
         for b, e in zeros:
             for x in s.cmp_facts_at(b):
@@ -82,10 +85,29 @@ def run(prog, ctx):
                     a, c = (x[1], x[2]) if x[0] == "Ge" else (x[2], x[1])
                     if sym.contains(a, lambda t: t[0] == "call" and t[1].endswith("finish128")) and sym.contains(c, lambda t: t[0] == "field" and t[2] == "theta"):
                         okz = True
-        if okz:
+        # positive evidence of a loosened screen: the hash is returned under a non-strict `hash <= theta`, or with no ordering
+        # guard against a table field at all
+        loose = unguarded = False
+        for b, e in hashes:
+            fx = s.cmp_facts_at(b)
+            rel = []
+            for x in fx:
+                if len(x) == 3 and x[0] in ("Lt", "Le", "Gt", "Ge"):
+                    a, c, op = x[1], x[2], x[0]
+                    if op in ("Gt", "Ge"):
+                        a, c, op = c, a, {"Gt": "Lt", "Ge": "Le"}[op]
+                    if sym.contains(a, lambda t: t[0] == "call" and t[1].endswith("finish128")) and sym.contains(c, lambda t: t[0] == "field" and t[1] == ("param", 1, "self")):
+                        rel.append(op)
+            if "Le" in rel and "Lt" not in rel:
+                loose = True
+            if not rel and not any(x[0] in ("Lt", "Le", "Gt", "Ge", "true", "false") for x in fx):
+                unguarded = True
+        if okz and not loose:
             res.discharged += 1
+        elif loose or unguarded:
+            res.violate("C04.S", "C04.S|%s|reject" % f.id, "%s does not reject hashes with `hash >= theta` (strictly-below-theta screen)%s" % (f.id, ": a hash equal to theta passes" if loose else ": no screen dominates the returned hash"), f.id)
         else:
-            res.violate("C04.S", "C04.S|%s|reject" % f.id, "%s does not reject hashes with `hash >= theta` (strictly-below-theta screen)" % f.id, f.id)
+            res.undecided += 1
     res.rule("C04.S", n_s, 1, "hash-and-screen routines reachable from ThetaSketch::update")
     # update inserts only non-zero
     s = Sym(prog, upd)
@@ -123,17 +145,22 @@ def run(prog, ctx):
             if exact:
                 res.discharged += 1
                 res.sample({"rule": "C04.W", "fn": f.id, "theta": show(val)[:90]})
+            elif karg is None or sym.contains(karg, lambda t: t[0] == "var") or lg is None:
+                res.undecided += 1
             else:
                 res.violate("C04.W", "C04.W|%s|kth" % f.id, "theta is set in %s from the %s-th smallest entry, expected index 2^lg_nom_size" % (f.id, show(karg) if karg else "?"), f.id, span)
-        else:
+        elif sym.contains(val, lambda t: t[0] == "param" and (t[2] or "") in ("hash", "key", "value")):
             res.violate("C04.W", "C04.W|%s" % f.id, "%s writes theta from %s (only construction/reset from the sampling probability and rebuild from the k-th smallest hash may)" % (f.id, show(val)[:80]), f.id, span)
+        else:
+            res.undecided += 1      # theta computed by a helper / from a value this rule does not trace
     res.rule("C04.W", n_w, 3, "stores to ThetaHashTable.theta")
 
     # ---------------- C04.C / C04.K in the insert routine
     ti = C.fn_one(prog, T, "try_insert")
     n_k = 0
     if ti is None:
-        res.violate("C04.K", "C04.K|missing", "ThetaHashTable::try_insert no longer exists")
+        res.obligations += 1
+        res.undecided += 1
     else:
         s = Sym(prog, ti)
         stores = list(C.buffer_stores(prog, ti, "entries"))
@@ -148,10 +175,12 @@ def run(prog, ctx):
             facts = s.cmp_facts_at(sb)
             if any(x[0] == "Ne" and len(x) == 3 for x in facts) or any(x[0] == "Eq" and len(x) == 3 and ("constref" in repr(x) or C.const_of(x[1]) == 0 or C.const_of(x[2]) == 0) for x in facts):
                 res.discharged += 1
+            elif not facts:
+                res.violate("C04.C", "C04.C|guard", "the entry store in try_insert is unconditional (not guarded by `slot != hash` / `slot == 0`)", ti.id)
             else:
-                res.violate("C04.C", "C04.C|guard", "the entry store in try_insert is not guarded by `slot != hash` / `slot == 0`", ti.id)
+                res.undecided += 1
         else:
-            res.violate("C04.C", "C04.C|shape", "try_insert no longer has exactly one entry store paired with one `num_entries += 1`", ti.id)
+            res.undecided += 2      # the store / increment live in a helper
         # K: capacity check post-dominates the insertion
         if stores:
             sb = stores[0][0]
@@ -160,7 +189,7 @@ def run(prog, ctx):
                 if b.cleanup or b.term[0] != "switch":
                     continue
                 e = s.operand(b.term[1])
-                if e[0] == "bin" and e[1] in ("Gt", "Lt", "Ge", "Le") and sym.contains(e, lambda t: t[0] == "field" and t[2] == "num_entries") and sym.contains(e, lambda t: t[0] == "call" and "get_capacity" in t[1] or (t[0] == "cast")):
+                if e[0] == "bin" and e[1] in ("Gt", "Lt", "Ge", "Le") and sym.contains(e, lambda t: t[0] == "field" and t[2] == "num_entries"):
                     cap_sw.append((b.idx, e))
             n_k += 1
             res.obligations += 3
@@ -172,8 +201,12 @@ def run(prog, ctx):
                     res.discharged += 1
                 else:
                     res.violate("C04.K", "C04.K|cmp", "capacity comparison in try_insert is %s, expected num_entries > capacity" % show(e), ti.id)
-            else:
+            elif cap_sw or not any(True for bb, st_ in ti.calls() if s._reaches(sb, bb) and (st_.get("callee") or "").startswith("theta::")):
+                # a comparison on num_entries exists but can be bypassed, or nothing at all follows the insertion
                 res.violate("C04.K", "C04.K|skip", "a path from the insertion in try_insert to its exit skips the capacity check", ti.id)
+                res.undecided += 1
+            else:
+                res.undecided += 2      # the check may sit in a helper called after the insertion
             # resize below nominal, rebuild above
             rz = [b for b, site in ti.calls() if (site.get("callee") or "").endswith("::resize")]
             rb = [b for b, site in ti.calls() if (site.get("callee") or "").endswith("::rebuild")]
@@ -200,6 +233,8 @@ def run(prog, ctx):
                         okd = False
             if okd:
                 res.discharged += 1
+            elif not (rz and rb) or not (any(len(x) == 3 and (show(x[1]).endswith("lg_cur_size") or show(x[2]).endswith("lg_cur_size")) for x in s.cmp_facts_at(rz[0]))):
+                res.undecided += 1
             else:
                 res.violate("C04.K", "C04.K|dispatch", "try_insert does not resize exactly when lg_cur_size <= lg_nom_size and rebuild otherwise", ti.id)
     gc = C.fn_one(prog, T, "get_capacity")
@@ -212,6 +247,8 @@ def run(prog, ctx):
                     consts.add(c)
         if consts == {0.5, 0.9375}:
             res.discharged += 1
+        elif len(consts) != 2:
+            res.undecided += 1      # thresholds not expressed as two float literals
         else:
             res.violate("C04.K", "C04.K|thresholds", "load thresholds in get_capacity are %s, expected {1/2, 15/16}" % sorted(consts), gc.id)
         # 1/2 applies below nominal size
@@ -221,10 +258,14 @@ def run(prog, ctx):
                 res.obligations += 1
                 ok = any(len(x) == 3 and ((x[0] == "Le" and show(x[1]).endswith("lg_cur_size") and show(x[2]).endswith("lg_nom_size")) or
                                           (x[0] == "Ge" and show(x[2]).endswith("lg_cur_size") and show(x[1]).endswith("lg_nom_size"))) for x in s.cmp_facts_at(b))
+                rev = any(len(x) == 3 and ((x[0] == "Gt" and show(x[1]).endswith("lg_cur_size") and show(x[2]).endswith("lg_nom_size")) or
+                                           (x[0] == "Lt" and show(x[2]).endswith("lg_cur_size") and show(x[1]).endswith("lg_nom_size"))) for x in s.cmp_facts_at(b))
                 if ok:
                     res.discharged += 1
+                elif rev:
+                    res.violate("C04.K", "C04.K|threshold-arm", "the 1/2 load threshold is selected above the nominal size instead of at or below it", gc.id)
                 else:
-                    res.violate("C04.K", "C04.K|threshold-arm", "the 1/2 load threshold is not selected by lg_cur_size <= lg_nom_size", gc.id)
+                    res.undecided += 1
     res.rule("C04.K", n_k, 1, "insert routine with capacity check")
 
     # ---------------- C04.G probe geometry at call sites
@@ -269,6 +310,8 @@ def run(prog, ctx):
                 elif want == lg:
                     res.discharged += 1
                     res.sample({"rule": "C04.G", "fn": f.id, "table": show(tab)[:70], "lg": show(lg)})
+                elif sym.contains(lg, lambda t: t[0] == "var") or sym.contains(want, lambda t: t[0] == "var"):
+                    res.undecided += 1
                 else:
                     res.violate("C04.G", "C04.G|%s" % f.id, "%s probes a table of 2^(%s) slots with lg %s" % (f.id, show(want), show(lg)), f.id, site["span"])
     res.rule("C04.G", n_g, 3, "probe-routine call sites")
@@ -278,7 +321,8 @@ def run(prog, ctx):
     for nm in ("resize", "rebuild"):
         f = C.fn_one(prog, T, nm)
         if f is None:
-            res.violate("C04.R", "C04.R|missing|" + nm, "ThetaHashTable::%s no longer exists" % nm)
+            res.obligations += 1
+            res.undecided += 1
             continue
         s = Sym(prog, f)
         for hdr, body in s.loops():
@@ -300,10 +344,17 @@ def run(prog, ctx):
                     if e[0] == "bin" and sym.contains(e, lambda t: t[0] == "call" and t[1].endswith("::next")):
                         filters.append(e)
             badf = [e for e in filters if not (e[1] in ("Ne", "Eq") and (C.const_of(e[2]) == 0 or C.const_of(e[3]) == 0))]
+            # the item may also be handed to a helper that places it
+            handed = any(f.blocks[b].term[0] == "call" and not (f.blocks[b].term[1].get("callee") or "").endswith("::next") and
+                         any(sym.contains(s.at(b, "t").operand(a), lambda t: t[0] == "call" and t[1].endswith("::next")) for a in f.blocks[b].term[1]["args"]) for b in body)
             if ok and not badf:
                 res.discharged += 1
-            else:
+            elif badf:
                 res.violate("C04.R", "C04.R|%s" % f.id, "%s does not re-insert every iterated entry (filter: %s)" % (f.id, [show(e) for e in badf]), f.id)
+            elif handed:
+                res.undecided += 1
+            else:
+                res.violate("C04.R", "C04.R|%s" % f.id, "%s iterates the old entries without storing them or handing them on" % f.id, f.id)
     C.pairing_rule(res, prog, "C04.K", "theta::hash_table::ThetaHashTable", "entries", "num_entries", 5)
     res.rule("C04.R", n_r, 2, "re-insertion loops in resize/rebuild")
 
@@ -321,10 +372,21 @@ def run(prog, ctx):
                         lg = C.shl_one_amount(c)
                         if show(a).endswith("num_entries") and lg is not None and show(lg).endswith("lg_nom_size"):
                             ok = True
+        loose_t = False
+        for b, site in tr.calls():
+            if (site.get("callee") or "").endswith("::rebuild"):
+                for x in s.cmp_facts_at(b):
+                    if len(x) == 3 and x[0] in ("Ge", "Le"):
+                        a, c = (x[1], x[2]) if x[0] == "Ge" else (x[2], x[1])
+                        lg = C.shl_one_amount(c)
+                        if show(a).endswith("num_entries") and lg is not None and show(lg).endswith("lg_nom_size"):
+                            loose_t = True
         if ok:
             res.discharged += 1
+        elif loose_t:
+            res.violate("C04.T", "C04.T|trim", "trim rebuilds already at num_entries == 2^lg_nom_size (expected strictly more)", tr.id)
         else:
-            res.violate("C04.T", "C04.T|trim", "trim does not rebuild exactly when num_entries > 2^lg_nom_size", tr.id)
+            res.undecided += 1
     rs = C.fn_one(prog, T, "reset")
     if rs is not None:
         res.obligations += 1
@@ -334,6 +396,8 @@ def run(prog, ctx):
         fills = any((site.get("callee") or "").endswith("::fill") for _, site in rs.calls())
         if not missing and fills:
             res.discharged += 1
+        elif not missing:
+            res.undecided += 1      # entries cleared by something other than fill()
         else:
             res.violate("C04.T", "C04.T|reset", "reset does not restore %s%s" % (sorted(missing), "" if fills else " and does not clear the entries"), rs.id)
     res.explanation = ("structural rules over the %d functions reachable from ThetaSketch::{update,trim,reset,compact} and the builder: screen formula, "
